@@ -285,6 +285,15 @@ def graphs_family(gen, n):
                   "modes": ["ref"], "tag": "graph:cycle-through-map-field"})
     cases.append({"t": Ptr(Reg("Member")), "v": {"id": 50, "v": {"Name": hx(b"p"), "Peers": [{"ref": 50}, member(51, b"q", None), {"ref": 50}, {"ref": 51}]}},
                   "modes": ["ref"], "tag": "graph:cycle-through-slice-field"})
+    # shared lists longer than the decoder's initial reservation (16): the back-referenced occurrence must be whole
+    for n in (16, 17, 40):
+        lst = {"id": 60 + n, "v": [str(i) for i in range(n)]}
+        cases.append({"t": Reg("Shared"), "v": {"L1": lst, "L2": {"ref": 60 + n}}, "modes": ["ref"], "tag": "graph:shared-long-list"})
+        sl = {"t": Ptr(Slice(T("string"))), "v": {"id": 160 + n, "v": [hx(b"s%d" % i) for i in range(n)]}}
+        cases.append({"t": Slice(IFACE), "v": [sl, {"t": Ptr(Slice(T("string"))), "v": {"ref": 160 + n}}, {"t": T("int"), "v": "1"}],
+                      "modes": ["ref"], "tag": "graph:shared-long-list-iface"})
+        fam = {"id": 260 + n, "v": [member(1000 * n + i, b"m%d" % i, {"ref": 260 + n}) for i in range(n)]}
+        cases.append({"t": Ptr(Slice(Ptr(Reg("Member")))), "v": fam, "modes": ["ref"], "tag": "graph:cycle-shared-long-slice"})
     for name in ("Node", "Node2", "Tree", "Graph", "Shared", "OneP", "Outer", "Deep", "Member"):
         for _ in range(n):
             td = Ptr(Reg(name))
@@ -374,6 +383,25 @@ def sequences_family(gen, n):
             if st["op"] == "encode" and gen.rng.random() < 0.5:
                 wseq.append({"op": "resetbuffer"})
         cases.append({"seq": wseq, "writer": True, "t": T("string"), "v": "", "tag": "seqw:writer"})
+    # decoding over a destination that already holds a graph (a caller reusing its variable): chains, rings and
+    # trees of different shapes one after the other, Reset in between; back-references must close the NEW graph
+    def node2(v, nxt): return {"V": str(v), "Next": nxt}
+    base = 70000
+    def chain(k, ring, off):
+        ids = [base + off + i for i in range(k)]
+        v = {"ref": ids[0]} if ring else None
+        for i in reversed(range(k)):
+            v = {"id": ids[i], "v": node2(i + 1 + off, v)}
+        return {"t": Ptr(Reg("Node2")), "v": v}
+    shapes = [(3, False), (2, True), (1, True), (4, False), (3, True), (1, False)]
+    for a_ in shapes:
+        for b_ in shapes:
+            if a_ == b_ or a_[1]:
+                continue      # the graph already in the destination is acyclic (decoding over a cyclic one aliases the caller's own nodes)
+            x, y = chain(a_[0], a_[1], 0), chain(b_[0], b_[1], 100)
+            base += 1000
+            cases.append({"seq": [{"op": "encode", "t": x["t"], "v": x["v"]}, {"op": "reset"}, {"op": "encode", "t": y["t"], "v": y["v"]}],
+                          "reuse": True, "modes": ["ref"], "t": T("string"), "v": "", "tag": "seqr:reuse-dest"})
     return cases
 
 
